@@ -18,6 +18,12 @@ type entry struct {
 
 var registry = map[string]entry{
 	"C20": {"exploration", comp.C20},
+	"C21": {"exploration", comp.C21},
+	"C16": {"exploration", comp.C16},
+	"C17": {"exploration", comp.C17},
+	"C22": {"exploration", comp.C22},
+	"C18": {"exploration", comp.C18},
+	"C19": {"exploration", comp.C19},
 }
 
 func main() {
